@@ -68,6 +68,10 @@ pub struct Summary {
     pub harness_errors: Vec<String>,
     pub notes: BTreeSet<String>,
     pub run_digests: Vec<(u64, u64)>,
+    /// distinct case groups (key = hash of the model/file/stream) with the number of
+    /// non-trivial cases each contributes; merged by key so duplicates are not counted twice
+    #[serde(default)]
+    pub weighted_distinct: BTreeMap<u64, u64>,
 }
 
 impl Summary {
@@ -109,6 +113,9 @@ impl Summary {
         self.harness_errors.extend(o.harness_errors);
         self.notes.extend(o.notes);
         self.run_digests.extend(o.run_digests);
+        for (k, v) in o.weighted_distinct {
+            self.weighted_distinct.entry(k).or_insert(v);
+        }
     }
 }
 
@@ -195,7 +202,7 @@ pub struct EvidenceInput<'a> {
 
 pub fn write_evidence(e: EvidenceInput) {
     let s = e.summary;
-    let distinct = s.fingerprints.len() as u64;
+    let distinct = s.fingerprints.len() as u64 + s.weighted_distinct.values().sum::<u64>();
     let per_hour = if e.wall_s > 0.0 { (s.runs as f64 / e.wall_s * 3600.0) as u64 } else { 0 };
     let mut coverage = json!({
         "evaluations": s.runs,
@@ -216,6 +223,7 @@ pub fn write_evidence(e: EvidenceInput) {
         "components_real": e.real,
         "components_stubbed": e.stubs,
         "known_findings_matched": e.known,
+        "distinct_case_groups": s.weighted_distinct.len(),
         "notes": s.notes,
     });
     if let (Value::Object(c), Value::Object(x)) = (&mut coverage, e.extra) {
